@@ -221,6 +221,7 @@ class Scheduler:
         self.points += 1
         self.point_sites.add((code.co_qualname, line))
         self.point_info.append((st.index, [t.index for t in en if t is not st]))
+        self.trace.append((st.index, code.co_qualname, line))
         target: TState | None = None
         if self.policy[0] == "replay":
             t = self.decision_map.get(idx)
@@ -448,10 +449,12 @@ class SchedRLock:
 
 
 # ------------------------------------------------------------------ systematic exploration ----
-def explore(run_one: typing.Callable[[tuple[typing.Any, ...]], tuple[list[tuple[int, list[int]]], typing.Any]], bound: int, max_runs: int) -> typing.Iterator[tuple[list[tuple[int, int]], typing.Any]]:
+def explore(run_one: typing.Callable[[tuple[typing.Any, ...]], tuple[list[tuple[int, list[int]]], typing.Any]], bound: int, max_runs: int,
+            expand: typing.Callable[[list[tuple[int, int]], int, int, typing.Any], bool] | None = None) -> typing.Iterator[tuple[list[tuple[int, int]], typing.Any]]:
     """Iterative preemption-bounded exploration.  ``run_one(("replay", decisions))`` must return
     (point_info, outcome) where point_info[i] = (running thread, other enabled threads) at decision point i.
-    Yields (decisions, outcome) for every executed schedule, breadth first (fewest preemptions first)."""
+    Yields (decisions, outcome) for every executed schedule, breadth first (fewest preemptions first).
+    ``expand(decisions, point, thread, outcome)`` may prune children (directed families of schedules)."""
     frontier: list[list[tuple[int, int]]] = [[]]
     runs = 0
     while frontier and runs < max_runs:
@@ -464,4 +467,5 @@ def explore(run_one: typing.Callable[[tuple[typing.Any, ...]], tuple[list[tuple[
         start = decisions[-1][0] + 1 if decisions else 0
         for p in range(start, len(info)):
             for t in info[p][1]:
-                frontier.append(decisions + [(p, t)])
+                if expand is None or expand(decisions, p, t, outcome):
+                    frontier.append(decisions + [(p, t)])
